@@ -10,16 +10,20 @@ mod c03;
 mod c04;
 mod c05;
 mod c06;
+mod c08;
 mod c09;
+mod c17;
 mod c19;
 mod c20;
 mod compile;
+mod doc;
 mod engine;
 mod gen;
 mod inject;
 mod model;
 mod observe;
 mod refcheck;
+mod request;
 mod render;
 mod rules;
 mod proc;
@@ -28,7 +32,7 @@ mod wire;
 use engine::{Check, Tier};
 
 fn registry() -> Vec<&'static dyn Check> {
-    vec![&c02::C02, &c03::C03, &c04::C04, &c05::C05, &c06::C06, &c09::C09, &c19::C19, &c20::C20]
+    vec![&c02::C02, &c03::C03, &c04::C04, &c05::C05, &c06::C06, &c08::C08, &c09::C09, &c17::C17, &c19::C19, &c20::C20]
 }
 
 fn find(id: &str) -> &'static dyn Check {
